@@ -10,8 +10,12 @@ import subprocess
 import sys
 import xml.etree.ElementTree as ET
 
-seed, wt, props = sys.argv[1], sys.argv[2], sys.argv[3:]
+NO_REPO = "--no-repo" in sys.argv  # confirm in the worktree only (the checks are then run by a second call / recheck_seeds)
+ONLY_REPO = "--only-repo" in sys.argv  # the worktree part was done before: only run the checks against /repo
+_argv = [a for a in sys.argv[1:] if a not in ("--no-repo", "--only-repo")]
+seed, wt, props = _argv[0], _argv[1], _argv[2:]
 PY = "/venv/bin/python"
+NPROC = os.environ.get("SKVERIF_PYTEST_N", "8")
 
 
 def sh(cmd, cwd=None, timeout=1800):
@@ -20,35 +24,49 @@ def sh(cmd, cwd=None, timeout=1800):
 
 
 out = {"seed": seed, "props": props}
-assert sh("git status --short", wt)[1].strip() == "", "worktree not clean"
-rc, o = sh(f"git apply {seed}/patch.diff", wt)
-assert rc == 0, o
+if ONLY_REPO:
+    out = json.load(open(f"{seed}/confirm.json"))
+    out["props"] = props
+else:
+    assert sh("git status --short", wt)[1].strip() == "", "worktree not clean"
+    rc, o = sh(f"git apply {seed}/patch.diff", wt)
+    assert rc == 0, o
 try:
-    rc, o = sh(f"{PY} -m compileall -q skchange", wt)
-    out["compiles"] = rc == 0
-    rc, o = sh(f"{PY} {seed}/demo.py", wt)
-    out["demo_with_change_rc"] = rc
-    junit = f"/tmp/scratch/junit_{os.path.basename(seed)}.xml"
-    rc, o = sh(f"{PY} -m pytest -q -p no:cacheprovider -n 8 --junitxml={junit} 2>&1 | tail -3", wt)
-    out["pytest_tail"] = o.strip().splitlines()[-1] if o.strip() else ""
-    b = json.load(open("/root/.vp/BASELINE.json"))
-    res = {}
-    for tc in ET.parse(junit).iter("testcase"):
-        name = tc.get("classname") + "::" + tc.get("name")
-        st = "pass"
-        for ch in tc:
-            if ch.tag in ("failure", "error"):
-                st = "fail"
-            elif ch.tag == "skipped":
-                st = "skip"
-        res[name] = st
-    miss = [k for k in b["stable_pass"] if res.get(k) != "pass"]
-    out["stable_pass_broken"] = miss[:5]
-    out["suite_ok"] = not miss
+  if not ONLY_REPO:
+      rc, o = sh(f"{PY} -m compileall -q skchange", wt)
+      out["compiles"] = rc == 0
+      rc, o = sh(f"{PY} {seed}/demo.py", wt)
+      out["demo_with_change_rc"] = rc
+      junit = f"/tmp/scratch/junit_{os.path.basename(seed)}.xml"
+      rc, o = sh(f"{PY} -m pytest -q -p no:cacheprovider -n {NPROC} --junitxml={junit} 2>&1 | tail -3", wt)
+      out["pytest_tail"] = o.strip().splitlines()[-1] if o.strip() else ""
+      b = json.load(open("/root/.vp/BASELINE.json"))
+      res = {}
+      for tc in ET.parse(junit).iter("testcase"):
+          name = tc.get("classname") + "::" + tc.get("name")
+          st = "pass"
+          for ch in tc:
+              if ch.tag in ("failure", "error"):
+                  st = "fail"
+              elif ch.tag == "skipped":
+                  st = "skip"
+          res[name] = st
+      miss = [k for k in b["stable_pass"] if res.get(k) != "pass"]
+      out["stable_pass_broken"] = miss[:5]
+      out["suite_ok"] = not miss
 finally:
-    sh("git checkout -- .", wt)
-rc, o = sh(f"{PY} {seed}/demo.py", wt)
-out["demo_clean_rc"] = rc
+    if not ONLY_REPO:
+        sh("git checkout -- .", wt)
+if not ONLY_REPO:
+    rc, o = sh(f"{PY} {seed}/demo.py", wt)
+    out["demo_clean_rc"] = rc
+if NO_REPO:
+    out["checks"] = {}
+    out["confirmed"] = bool(out["compiles"] and out["demo_with_change_rc"] != 0 and out["demo_clean_rc"] == 0 and out["suite_ok"])
+    out["detected"] = False
+    json.dump(out, open(f"{seed}/confirm.json", "w"), indent=1)
+    print(json.dumps({k: out[k] for k in ("confirmed", "pytest_tail", "demo_with_change_rc", "demo_clean_rc")}))
+    sys.exit(0)
 # run the checks against /repo with the patch applied
 assert sh("git status --short", "/repo")[1].strip() == "", "/repo not clean"
 rc, o = sh(f"git apply {seed}/patch.diff", "/repo")
